@@ -4,6 +4,10 @@ import Exetera.Lemmas.CatalogueViews
 import Exetera.Lemmas.CatalogueReopen
 import Exetera.Lemmas.CatalogueAtomic
 import Exetera.Lemmas.CatalogueHeap
+import Exetera.Lemmas.CatalogueRefineStep
+import Exetera.Lemmas.CatalogueSpec
+import Exetera.Lemmas.CatalogueHandles
+import Exetera.Lemmas.CatalogueReturnsStep
 /-!
   C15 — the catalogue stays consistent under any history of structural edits.
   All theorems are about `Exetera.Catalogue.step .repaired` / `run .repaired`, the functions the driver executes
@@ -110,6 +114,21 @@ theorem handles_follow_rename {s : State} (hI : Inv s) (g : Nat) (dict : List (N
 
 example : ((0, "a"), 0) ∈ exState.cols ∧ viewHandle (renamedState exState 0 exDict) 0 = .named "b" := by decide
 
+/-- … and so does every other open field object of a renamed column: a writeable view (`field.writeable()`, a second wrapper
+    object around the same group, `Op.view`) reads its name from the group, so it reports the old name before and the new
+    name after, and stays valid. -/
+theorem views_follow_rename {s : State} (hI : Inv s) (g : Nat) (dict : List (Name × Name))
+    (hok : RenameOk dict ((ownedBy s.cols g).map (·.1))) {h : Nat} {hd : Handle} {n : Name}
+    (hh : s.handles[h]? = some hd) (hc : hd.closed = false) (hl : ((g, n), hd.oid) ∈ s.links) :
+    viewHandle s h = .named n ∧ viewHandle (renamedState s g dict) h = .named (renOf dict n) :=
+  wrapper_follows_rename hI.toInvCore g dict hok hh hc hl
+
+/-- `exState` plus a writeable view (handle 3) of column x.a (handle 0) -/
+def exViewState : State := run .repaired exState [.view (.byHandle 0)]
+example : Inv exViewState := inv_run _ (inv_all_histories exOps)
+example : (exViewState.handles[3]?).map (·.oid) = (exViewState.handles[0]?).map (·.oid) ∧
+    viewHandle exViewState 3 = .named "a" ∧ viewHandle (renamedState exViewState 0 exDict) 3 = .named "b" := by decide
+
 /-! ### every call is all-or-nothing -/
 
 /-- Under the invariant, a call that raises — any call: on columns (create_*, df[n]=f, add, del, drop, delete_field, rename,
@@ -175,6 +194,96 @@ theorem objects_never_change_run (v : Variant) (ops : List Op) (s : State) {oid 
 example : exState.objs[1]? = some ⟨.indexed, 2⟩ ∧
     (run .repaired exState [.rename 0 "x" exDict, .moveFrame 0 "x" 1 "y", .reopen 1]).objs[1]? = some ⟨.indexed, 2⟩ := by decide
 
+/-! ### ONE refinement for EVERY call: the code is a run of the abstract catalogue `dataset ↦ frame ↦ column ↦ (type, data)`
+
+  `specStep` (Spec/Catalogue.lean) says in terms of names only what each call means: create/copy put one column, del/drop/
+  delete_field remove one, rename re-keys one frame, `dataframe.move` is a rename inside a frame and copy + drop across frames,
+  create/copy/`ds[n] = foreign` put a whole frame, `ds[n] = own` renames a frame, del/drop/delete remove one, `dataset.move` is
+  copy + drop, `require_dataframe` creates when missing, reopen changes nothing. A call that raises changes nothing.
+  The only thing taken from the model is the call log: which call, where the field object it was handed sat at that moment
+  (`srcOf`: dataset, frame name, column name of the group it wraps), and whether it returned. -/
+
+/-- Every call of the repaired code, on every consistent state, returning or raising, changes the file catalogue exactly as
+    the abstract catalogue prescribes. Proviso (as for `calls_all_or_nothing`, here for every call that takes a field): the
+    field object handed in is not the left-over of a deleted column (`Op.refsLinked`). -/
+theorem step_refines {s : State} (hI : Inv s) (op : Op) (hz : op.refsLinked s) :
+    absH5 (step .repaired s op).state = specCall (absH5 s) (callOf .repaired s op) :=
+  Catalogue.step_refines hI op hz
+
+/-- … spelled out for a call that returns … -/
+theorem returning_call_refines {s s' : State} (hI : Inv s) (op : Op) (hz : op.refsLinked s) {u : Unit}
+    (hok : step .repaired s op = .ok u s') : absH5 s' = specStep (srcOf s op) (absH5 s) op :=
+  step_refines_ok hI op hz hok
+
+/-- … and for one that raises. -/
+theorem raising_call_refines {s s' : State} (hI : Inv s) (op : Op) (hz : op.refsLinked s) {e : Err}
+    (herr : step .repaired s op = .err e s') : absH5 s' = absH5 s := by
+  rw [calls_all_or_nothing hI op (refsLinked_srcLinked hz) e s' herr]
+
+theorem absH5_init : absH5 State.init = Cat.empty := rfl
+
+/-- Over all histories: the file catalogue after any history of calls is the abstract catalogue run over the call log. -/
+theorem history_refines (ops : List Op) (hz : HistLinked .repaired State.init ops) :
+    absH5 (run .repaired State.init ops) = specRun Cat.empty (callLog .repaired State.init ops) := by
+  rw [← absH5_init]; exact run_refines ops inv_init hz
+
+/-- … and so is what the Python objects report (`ds.keys()`, `df.keys()`, the field objects and their data) — "the names
+    reported are exactly the groups present" and "a fresh reopen shows the same" for the one abstract catalogue. -/
+theorem reported_catalogue_refines (ops : List Op) (hz : HistLinked .repaired State.init ops) :
+    absPy (run .repaired State.init ops) = specRun Cat.empty (callLog .repaired State.init ops) := by
+  rw [reopen_same ops]; exact history_refines ops hz
+
+/-- "Untouched fields keep their data", for every call: whatever a returning call does not name (`Op.touches`: its destination
+    column, its source when it moves, the renamed columns and their targets, the frames a frame-level call names) has the type
+    and data it had. -/
+theorem untouched_fields_keep_data {s s' : State} (hI : Inv s) (op : Op) (hz : op.refsLinked s) {u : Unit}
+    (hok : step .repaired s op = .ok u s') (p : Src) (hp : ¬ op.touches (srcOf s op) p) : (absH5 s').col p = (absH5 s).col p := by
+  rw [returning_call_refines hI op hz hok]; exact specStep_untouched _ _ _ _ hp
+
+/-- WHEN a call returns: every call (other than `writeable()`, whose outcome hangs on the object's `_valid_reference` alone)
+    returns exactly when the abstract pre-condition `specOk` holds — the frame exists / does not exist yet, the column exists /
+    is free, the field handed in is there, the rename pre-check passes on the abstract frame — and raises otherwise. So a
+    valid call is never refused and an invalid one never goes through. -/
+theorem call_returns_iff {s : State} (hI : Inv s) (op : Op) (hz : op.refsLinked s) (hnv : op.isView = false) :
+    (step .repaired s op).isOk = specOk (srcOf s op) (absH5 s) op :=
+  step_isOk hI op hz hnv
+
+/-- … hence the abstract machine needs nothing from the model but where the field object handed in sits: one call of the
+    code is one step `specNext` (effect when the pre-condition holds, nothing otherwise), for every call. -/
+theorem step_refines_total {s : State} (hI : Inv s) (op : Op) (hz : op.refsLinked s) :
+    absH5 (step .repaired s op).state = specNext (absH5 s) (op, srcOf s op) :=
+  Catalogue.step_refines_total hI op hz
+
+/-- … and every history is an execution of the abstract machine. -/
+theorem history_refines_total (ops : List Op) (hz : HistLinked .repaired State.init ops) :
+    absH5 (run .repaired State.init ops) = specExec Cat.empty (srcLog .repaired State.init ops) := by
+  rw [← absH5_init]; exact run_refines_total ops inv_init hz
+
+/-- two datasets; frame x{a,b} and y{a_} in the first, x in the second; then: a frame copied into the other dataset, a frame
+    assigned across datasets, a column moved (by held handle) into a frame of the other dataset where nothing is overwritten,
+    a frame moved across datasets, a rename, a refused call, a reopen -/
+def exHist : List Op :=
+  exOps ++ [.copyFrame 0 "x" 1 "z", .setFrame 1 "w" 0 "y", .moveField (.byHandle 1) 1 "x" "b", .moveFrame 0 "y" 1 "v",
+            .rename 0 "x" [("a", "b")], .copyFrame 0 "x" 1 "z", .reopen 1, .setFrame 1 "u" 1 "z"]
+
+example : HistLinked .repaired State.init exHist := histLinked_of_check (by decide)
+example : (callLog .repaired State.init exHist).map (·.returned) =
+    [true, true, true, true, true, true, true, true, true, true, true, false, true, true] := by decide
+example : ((callLog .repaired State.init exHist)[8]?).map (·.src) = some (some ⟨0, "x", "b"⟩) := by decide
+/-- the cross-dataset copies and moves arrived with their data, the sources of the moves are gone, nothing was overwritten -/
+example : let A := absH5 (run .repaired State.init exHist)
+    A.col ⟨1, "u", "b"⟩ = some ⟨.indexed, 2⟩ ∧ A 1 "z" = none ∧ A.col ⟨1, "w", "a_"⟩ = some ⟨.fixed, 3⟩ ∧
+    A.col ⟨1, "x", "b"⟩ = some ⟨.indexed, 2⟩ ∧ A.col ⟨0, "x", "a"⟩ = none ∧ A.col ⟨0, "x", "b"⟩ = some ⟨.numeric, 1⟩ ∧
+    A.col ⟨1, "v", "a_"⟩ = some ⟨.fixed, 3⟩ ∧ (A 0 "y").isNone = true := by decide
+example : specOk (some ⟨0, "x", "b"⟩) (absH5 exState) (.moveField (.byHandle 1) 1 "x" "b") = true ∧
+    specOk (some ⟨0, "x", "a"⟩) (absH5 exState) (.moveField (.byHandle 0) 0 "y" "a_") = false ∧
+    specOk none (absH5 exState) (.copyFrame 0 "x" 1 "x") = false ∧ specOk none (absH5 exState) (.copyFrame 0 "x" 1 "z") = true := by
+  decide
+example : (Op.moveField (.byHandle 1) 1 "x" "b").refsLinked (run .repaired State.init (exOps ++ [.copyFrame 0 "x" 1 "z", .setFrame 1 "w" 0 "y"])) :=
+  refsLinked_of_check (by decide)
+example : ¬ (Op.moveField (.byHandle 1) 1 "x" "b").touches (some ⟨0, "x", "b"⟩) ⟨0, "x", "a"⟩ := by
+  simp [Op.touches]
+
 /-! ### move -/
 
 /-- A field object that `dataframe.move` moved to another frame reports itself invalid. -/
@@ -185,5 +294,47 @@ theorem moved_handles_invalid {s s' : State} {h g : Nat} {n : Name} {hd : Handle
 
 example : (moveField .repaired exState 1 1 "b").isOk = true ∧ viewHandle (moveField .repaired exState 1 1 "b").state 1 = .invalid := by
   decide
+
+/-- The statement one would like for EVERY field object of the moved field — the property's "handles to moved-away fields
+    report themselves invalid" — is
+
+      Inv s → ensureValid s h = .ok hd → hd.owner ≠ some g → moveField .repaired s h g n = .ok () s' →
+      ∀ j hj, s'.handles[j]? = some hj → hj.closed = false → hj.oid = hd.oid → viewHandle s' j = .invalid
+
+    (`MovedHandlesAllInvalid`). It is FALSE for the code as it is (open finding NC15c): `dataframe.move` sets
+    `_valid_reference = False` on the one object it is handed; a second wrapper of the same field (`w = f.writeable()`) is
+    told nothing, keeps `valid == True` and its `name` raises from h5py (`Witness.C15.nc15c_stale_view`,
+    `moved_handles_all_invalid_refuted`). Proved here: the statement under the hypothesis that excludes exactly that — no
+    OTHER open, valid field object wraps the moved field's group. -/
+theorem moved_handles_invalid_partial {s s' : State} (hI : Inv s) {h g : Nat} {n : Name} {hd : Handle}
+    (hv : ensureValid s h = .ok hd) (hne : hd.owner ≠ some g) (hok : moveField .repaired s h g n = .ok () s')
+    (hsole : ∀ j hj, j ≠ h → s.handles[j]? = some hj → hj.closed = false → hj.valid = true → hj.oid ≠ hd.oid) :
+    ∀ j hj, s'.handles[j]? = some hj → hj.closed = false → hj.oid = hd.oid → viewHandle s' j = .invalid :=
+  moveField_cross_all_invalid hI.toInvCore hv hne hok hsole
+
+/-- no other wrapper of x.b in `exState`: handles 0 and 2 wrap other groups -/
+example : ∀ j hj, j ≠ 1 → exState.handles[j]? = some hj → hj.closed = false → hj.valid = true → hj.oid ≠ 1 := by
+  intro j hj hne hh _ _
+  have hlt : j < 3 := (List.getElem?_eq_some_iff.1 hh).1
+  match j, hne, hh with
+  | 0, _, hh => cases hh; decide
+  | 2, _, hh => cases hh; decide
+
+def MovedHandlesAllInvalid : Prop :=
+  ∀ (s s' : State) (h g : Nat) (n : Name) (hd : Handle), Inv s → ensureValid s h = .ok hd → hd.owner ≠ some g →
+    moveField .repaired s h g n = .ok () s' →
+    ∀ j hj, s'.handles[j]? = some hj → hj.closed = false → hj.oid = hd.oid → viewHandle s' j = .invalid
+
+/-- NC15c: with a writeable view (handle 3) of x.a held, moving x.a (handle 0) to frame y leaves the view valid but dangling. -/
+theorem moved_handles_all_invalid_refuted : ¬ MovedHandlesAllInvalid := by
+  intro H
+  have hI : Inv exViewState := inv_run _ (inv_all_histories exOps)
+  have hmv : ∀ r : Res Unit, r.isOk = true → r = .ok () r.state := by
+    intro r hr; cases r with
+    | ok u s1 => rfl
+    | err e s1 => cases hr
+  have := H exViewState (moveField .repaired exViewState 0 1 "ab").state 0 1 "ab" ⟨0, true, some 0, 0, false⟩ hI
+    (by rfl) (by decide) (hmv _ (by decide)) 3 ⟨0, true, some 0, 0, false⟩ (by decide) rfl rfl
+  revert this; decide
 
 end Exetera.Props.C15
